@@ -330,8 +330,16 @@ class Run:
                 v["expire"] = v["expire"] - t_stop - off
         earnings = copy.deepcopy(self.c.data_manager.data)
         self.vm.stop()
-        self.vm = VMachine(self.yaml, mock_data={"machine_vars": disk, "earnings": earnings})
-        self.start()
+        for attempt in (0, 1):
+            self.vm = VMachine(self.yaml, mock_data={"machine_vars": copy.deepcopy(disk), "earnings": copy.deepcopy(earnings)})
+            try:
+                self.start()
+                break
+            except BootError:
+                # a boot that fails once and succeeds when repeated with the same data is the loaded host, not the code
+                # under test (seen once in a thorough run with 6 workers; the replay passed): only a repeated failure counts
+                if attempt == 1:
+                    raise
 
     def stop(self):
         self.vm.stop()
